@@ -86,7 +86,7 @@ fn gen_value(rng: &mut Rng, depth: usize, allow_big: bool) -> RespValue {
 
 fn gen_inline(rng: &mut Rng) -> Vec<u8> {
     let words = ["PING", "ECHO", "GRAPH.QUERY", "default", "x", "h\u{e9}", "a:b", "k=v"];
-    let quoted = ["\"a b\"", "\"\"", "\"x\\ny\"", "\"q\\\"q\"", "\"b\\\\s\"", "\"\\z\"", "\"tab\\there\"", "\"MATCH (n) RETURN n\"", "pre\"mid dle\"post", "\"\u{65e5} \u{672c}\"", "\"l1\nl2\""];
+    let quoted = ["\"a b\"", "\"\"", "\"x\\ny\"", "\"q\\\"q\"", "\"b\\\\s\"", "\"\\z\"", "\"tab\\there\"", "\"MATCH (n) RETURN n\"", "pre\"mid dle\"post", "\"\u{65e5} \u{672c}\"", "\"l1\nl2\"", "\"caf\\\u{e9}\"", "\"\\\u{1f600}\u{20ac}\"", "\u{e9}\"\u{20ac}\""];
     let n = 1 + rng.usize(4);
     let mut s = String::new();
     for i in 0..n {
